@@ -103,6 +103,10 @@ def run(ctx, out, pid, props, projection, n_quick, n_thorough, pool=None, weight
             for name, v in zip(PREMISES, fl):
                 premise_count[name] += int(v)
             premise_count['all of wf_mm, ref_defaults_none, op_many (WF_history applies)'] += int(fl[0] and fl[1] and fl[4])
+            fits = model.ask('fits', toks)[0]
+            premise_count['fits_b (op_fits, no cycle created, objects in the universe: acyclic_history applies)'] += int(fits)
+            if not fits and len(out.notes) < 5:
+                out.notes.append(f'case outside fits_b although no call was dropped by creates_cycle: {case["history"][:6]}')
         except Exception as e:  # noqa
             out.notes.append(f'premise evaluation failed: {e!r}')
         # --- property oracle on the implementation ---
